@@ -403,7 +403,9 @@ def call(F, fname, *a, **kw):
                 raise Abort()
         _S["n_" + fname] = _S.get("n_" + fname, 0) + 1   # per function: every one of them is sampled
         if _S["n_" + fname] % 4 == 1:
-            verdict, detail = history.reuse_check(getattr(_S["g"], fname), a, kw)
+            # (the un-armed function: a post-condition that fires inside the history would end it as
+            # "not applicable" instead of letting the comparison with the fresh call decide)
+            verdict, detail = history.reuse_check(_S["orig"].get(fname) or getattr(_S["g"], fname), a, kw)
             hk = "history.reuse_%s.%s" % (verdict.replace("/", ""), fname)
             _S.setdefault("hist", {})[hk] = _S.setdefault("hist", {}).get(hk, 0) + 1
             if verdict == "stale":
